@@ -225,6 +225,34 @@ def oracle_image(inp):
     return out
 
 
+def oracle_clip(inp):
+    """documented range semantics: values above cmax are stored as the top level, values below cmin like cmin
+    itself, and the stored level never decreases when the value grows"""
+    T, _ = mods()
+    depth, cmin, cmax = inp['depth'], float(inp['cmin']), float(inp['cmax'])
+    L = 2 ** depth - 1
+    vals = sorted(float(v) for v in inp['values'])
+    row = [cmin, cmax] + vals
+    fn = fresh('.png')
+    out = []
+    try:
+        T.save_image(fn, np.array(row, dtype=np.float64).reshape(1, -1), cmin=cmin, cmax=cmax, color_depth=depth)
+        got = T.load_image(fn).reshape(-1)
+        lev_min, lev_max, lv = got[0], got[1], got[2:]
+        out.append(('cmax_is_top_level', lev_max == L, L, float(lev_max)))
+        above = [(v, float(l)) for v, l in zip(vals, lv) if v > cmax and l != L]
+        out.append(('above_cmax_stored_as_top_level', not above, 'level %d' % L, above[:3]))
+        below = [(v, float(l)) for v, l in zip(vals, lv) if v < cmin and l != lev_min]
+        out.append(('below_cmin_stored_as_cmin', not below, 'level %s' % lev_min, below[:3]))
+        dec = [(vals[i], float(lv[i]), vals[i + 1], float(lv[i + 1])) for i in range(len(vals) - 1) if lv[i + 1] < lv[i]]
+        out.append(('levels_monotone_in_value', not dec, 'non-decreasing', dec[:2]))
+    except Exception as e:
+        out.append(('no_exception', False, 'a file', repr(e)[:300]))
+    finally:
+        rm(fn)
+    return out
+
+
 # ---------------------------------------------------------------- dictionaries
 def same_json(a, b):
     if type(a) is not type(b):
@@ -488,10 +516,10 @@ def oracle_tensor(inp):
     return out
 
 
-ORACLES = {'image': oracle_image, 'dictionary': oracle_dictionary, 'dictionary_locale': oracle_dictionary_locale,
+ORACLES = {'image': oracle_image, 'clip': oracle_clip, 'dictionary': oracle_dictionary, 'dictionary_locale': oracle_dictionary_locale,
            'text': oracle_text, 'copy': oracle_copy, 'copy_arguments': oracle_copy_arguments, 'ply': oracle_ply,
            'tensor': oracle_tensor}
-FUNCTION = {'image': None, 'dictionary': 'odak.tools.save_dictionary/load_dictionary',
+FUNCTION = {'image': None, 'clip': 'odak.tools.save_image/load_image', 'dictionary': 'odak.tools.save_dictionary/load_dictionary',
             'dictionary_locale': 'odak.tools.save_dictionary/load_dictionary', 'text': 'odak.tools.write_to_text_file/read_text_file',
             'copy': 'odak.tools.copy_file', 'copy_arguments': 'odak.tools.copy_file', 'ply': 'odak.tools.write_PLY/read_PLY',
             'tensor': 'odak.learn.tools.save_torch_tensor/torch_load'}
@@ -627,6 +655,19 @@ def gen_image_inputs(ctx):
     return out
 
 
+def gen_clip_inputs(ctx):
+    rng = ctx.rng
+    out = []
+    for _ in range(30 if not ctx.thorough else 300):
+        depth = rng.choice([8, 16])
+        cmax = rng.choice([1.0, 100.0, 255.0, 65535.0, 3.0, 0.1, rng.uniform(0.5, 900.0)])
+        cmin = rng.choice([0.0, 0.0, 0.1, 0.25, 0.5]) * cmax
+        vals = [rng.uniform(cmin, cmax) for _ in range(8)] + [cmax * rng.uniform(1.0001, 3.0) for _ in range(4)] + [cmax * 1e6, cmax + 1.0]
+        vals += [cmin - rng.uniform(0.001, 2.0) * cmax for _ in range(4)] + [-1e6 * cmax, -0.0]
+        out.append({'depth': depth, 'cmin': cmin, 'cmax': cmax, 'values': vals})
+    return out
+
+
 def gen_copy_inputs(ctx):
     rng = ctx.rng
     out = []
@@ -656,7 +697,8 @@ def quantiser_cases(ctx):
         L = 2 ** depth - 1
         cm = [float(L), 1.0, 100.0, 3.0, 0.1, 1e-3, 1e6, 12345.678, rng.uniform(0.5, 500.0), 10 ** rng.uniform(-6, 6)]
         for cmax in cm:
-            levels = list(range(L + 1)) if depth == 8 and cmax in (float(L), 100.0) else sorted(rng.sample(range(L + 1), per))
+            full = cmax in (float(L), 100.0) and (depth == 8 or ctx.thorough)        # every level through Coq and the file
+            levels = list(range(L + 1)) if full else sorted(rng.sample(range(L + 1), per))
             for k in range(0, len(levels), per):
                 ch = levels[k:k + per]
                 rows.append((depth, 0.0, cmax, [n * 1. / (L / cmax) for n in ch], 'grid'))
@@ -730,6 +772,13 @@ def b2_layout(ctx):
             meta.append(('load', shp, depth, loaded))
             terms.append('shape_ok (%s %s)' % (ctor, nest(lv)))
             meta.append(('accepted', shp, depth, True))
+            if loaded.ndim == 3:                             # torch_style = True: np.moveaxis(image, -1, 0)
+                fn = fresh('.png')
+                T.save_image(fn, lv.astype(float), cmin=0, cmax=L, color_depth=depth)
+                ts = T.load_image(fn, torch_style=True)
+                rm(fn)
+                terms.append('hwc_to_chw %d %s' % (loaded.shape[2], nest(loaded.astype(int))))
+                meta.append(('torch_style', shp, depth, ts))
     # the PyTorch saver: the array it hands to the NumPy saver (recorded), every small shape
     import odak.tools
     got = {}
@@ -776,6 +825,8 @@ def b2_layout(ctx):
             ok = arr is not None and arr.shape == np.asarray(impl).shape and bool((arr == np.asarray(impl)).all()) and (m[0] == 'Gray') == (np.asarray(impl).ndim == 2)
         elif what == 'accepted':
             ok = (v or '').strip() == 'true'
+        elif what == 'torch_style':
+            ok = np.array(tolist(m)).shape == impl.shape and bool((np.array(tolist(m)) == impl).all())
         elif what == 'torch_array':
             ok = impl is not None and np.array(tolist(m)).shape == impl.shape and bool((np.array(tolist(m)) == impl).all())
         else:
@@ -1026,6 +1077,9 @@ def run(ctx):
                  json.dumps(inp, sort_keys=True), nontrivial=len(res) >= 3)
         if len(ctx.samples) < 4 and inp['api'] == 'torch' and not bad:
             ctx.sample({'image': inp, 'clauses': [r[0] for r in res]})
+    for inp in gen_clip_inputs(ctx):
+        apply_oracle(ctx, 'clip', inp); n_or += 1
+        ctx.case('image/clip/%d-bit' % inp['depth'], json.dumps(inp, sort_keys=True))
     dicts = [gen_dict(rng) for _ in range(60 if not ctx.thorough else 600)]
     dicts += [{}, {'\xe9': '\xfc'}, {'k': 'h\xe9llo \u2713 \u65e5\u672c \U0001f600'}, {'nested': {'a': [1, [2, [3, {'b': None}]]]}}, {'esc': 'line\nbreak\t"q"\\ \x00'}]
     for d in dicts:
@@ -1081,6 +1135,8 @@ def search(ctx):
                 apply_oracle(ctx, 'image', {'api': 'numpy', 'depth': depth, 'shape': [64, 128] if depth == 16 else [16, 16], 'pattern': 'ramp', 'start': start, 'cmax': cmax})
             if len(ctx.viol) > 2:
                 return
+    for inp in gen_clip_inputs(ctx):
+        apply_oracle(ctx, 'clip', inp)
     for h in range(1, 8):
         for w in range(1, 8):
             for c in (1, 3):
